@@ -190,12 +190,21 @@ def run(ctx):
             try:
                 v = Fraction(mag if not mag.startswith('.') else '0' + mag)
                 unit = ref['v']
-                prefix = unit[:-1]
-                if unit[-1] != 'B' or prefix not in ('', 'K', 'Ki', 'M', 'Mi', 'G', 'Gi', 'T', 'Ti'):
+                # [prefix] unit with unit in {B, b, bit}; bit units divide by 8 (same arithmetic as string_to_bytes, IEC)
+                if unit.endswith('bit'):
+                    prefix, bits = unit[:-3], True
+                elif unit.endswith('b'):
+                    prefix, bits = unit[:-1], True
+                elif unit.endswith('B'):
+                    prefix, bits = unit[:-1], False
+                else:
+                    prefix, bits = None, False
+                if prefix not in ('', 'K', 'Ki', 'M', 'Mi', 'G', 'Gi', 'T', 'Ti'):
                     want = ('ValueError', None)
                 else:
                     exp = {'': 0, 'K': 1, 'M': 2, 'G': 3, 'T': 4}[prefix[:1]]
-                    want = ('ok', math.ceil(v * 1024 ** exp))
+                    q = v * 1024 ** exp
+                    want = ('ok', math.ceil(q / 8 if bits else q))
             except ValueError:
                 want = ('ValueError', None)
         text = 'image: x.img\nfile format: raw\nvirtual size: %s\ndisk size: %s\ncluster_size: %s\n' % (field, field, field)
